@@ -195,6 +195,11 @@ def codec_scope(tier):
     add("arr_rec_empty", arr(rec(nm("Empty"), [])))
     add("map_rec_opt", mp(rec(nm("MR"), [("o", un(prim("null"), prim("string"))), ("l", arr(prim("boolean")))])))
     add("rec_two_names", un(rec("n1.Same", [("a", prim("int"))]), rec("n2.Same", [("a", prim("string"))])))
+    # the natural branch of a value declared after / between branches that could also hold a value of its serde type
+    add("u_enum_enum_int_str", un(enum(nm("u3.E"), ["A", "B"]), enum(nm("u3.E2"), ["B", "C"]), prim("int"), prim("string")))
+    add("u_null_bytes_fixed_arr", un(prim("null"), prim("bytes"), fixed(nm("u3.F"), 2), arr(prim("int"))))
+    add("u_fixed_string_bytes", un(fixed(nm("u4.F"), 3), prim("string"), prim("bytes")))
+    add("u_dec_double_float_long", un(prim("bytes", "decimal", prec=10, scale=1), prim("double"), prim("float"), prim("long")))
     if tier != "quick":
         add("deep_arr3", arr(arr(arr(prim("int")))))
         add("rec_in_rec", rec(nm("O"), [("i", rec(nm("I"), [("x", prim("string")), ("y", un(prim("null"), prim("long")))])),
@@ -262,6 +267,19 @@ def matrix_scope(tier):
     add("u_null_duration", un(prim("null"), DUR()))
     add("u_date_long", un(prim("int", "date"), prim("long")))
     add("u_bool_double", un(prim("boolean"), prim("double")))
+    # three and four branches: the best branch for a presentation declared after / between / before branches that merely could
+    # hold it (the per-type lookup keeps a priority and a conflict marker per serde type), and three-way ties
+    E2 = lambda: enum("ns.E2", ["B", "C"])  # noqa: E731
+    add("u_enum_enum_int", un(E(), E2(), prim("int")))
+    add("u_int_enum_enum", un(prim("int"), E(), E2()))
+    add("u_enum_int_enum", un(E(), prim("int"), E2()))
+    add("u_enum_enum_string", un(E(), E2(), prim("string")))
+    add("u_null_bytes_fixed_array", un(prim("null"), prim("bytes"), F2(), arr(prim("int"))))
+    add("u_fixed_string_bytes", un(F2(), prim("string"), prim("bytes")))
+    add("u_decimal_double_float", un(prim("bytes", "decimal", prec=10, scale=1), prim("double"), prim("float")))
+    add("u_enum_long_int", un(E(), prim("long"), prim("int")))
+    add("u_three_records", un(R(), rec("other.R", [("a", prim("int")), ("b", prim("int"))]), rec("third.R", [("a", prim("int"))])))
+    add("u_null_map_two_records", un(prim("null"), mp(prim("int")), R(), rec("other.R", [("a", prim("int")), ("b", prim("int"))])))
     return out
 
 
